@@ -260,11 +260,23 @@ func runC11(r *Report, tier string) {
 		o.check(x.facts.holdsNonNil(T("param", "0")) && x.facts.holdsNonEmpty(sg), "facts recv!=nil, len(Signature)!=0", "an exit of the Signature encoder lacks the nil/empty-signature refusal")
 	}
 	// decoder
+	checkSignMessageDecoderElems(r, "R11.3")
+}
+
+// checkSignMessageDecoderElems: the COSE_Sign decoder refuses an empty
+// signature list and decodes every element with the Signature decoder
+// (shared by R11.3 and R05.4).
+func checkSignMessageDecoderElems(r *Report, rule string) {
+	P := r.P
+	dec := P.methodOf(P.mustNamed("SignMessage"), "UnmarshalCBOR")
+	if dec == nil {
+		undecidedf("anchor not found: SignMessage.UnmarshalCBOR")
+	}
 	for _, x := range P.factsOf(dec).exits {
 		if x.kind == exitFailure {
 			continue
 		}
-		o := r.ob("R11.3", shortFn(dec)+":exit:"+exitID(P, dec, x), dec, x.ret, "decoder: raw signature list non-empty and every element decoded by the Signature decoder")
+		o := r.ob(rule, shortFn(dec)+":exit:"+exitID(P, dec, x), dec, x.ret, "decoder: raw signature list non-empty and every element decoded by the Signature decoder")
 		// non-empty raw list: some fact !(0 == len(X)) where X is a field named Signatures of the decoded wire struct
 		c1 := false
 		var listT *Term
